@@ -24,6 +24,9 @@ CHECKS = {
  "C18": dict(cat="exploration", tech="bounded-exhaustive enumeration: all signature lists <=3 over a pool + generated lists across the 1000-entry batch boundary, EVERY truncation offset of their JSON, a malformed menu, and all add/get histories <=3 on both back ends, on the real stores",
    text="Every list within the bound is migrated into a fresh real database and exported, and compared field for field with its last-wins set; every byte-truncation of the small files (and every offset around batch boundaries of the large ones) must be an error or lossless; every add/batch-add/save-load history of up to three steps fetches every added ID back on both back ends. Exhaustive within the pools and bounds. The atomic-replace clause of SaveDatabase is covered by the save-atomicity unit when present (see DESIGN).",
    note="Trusted: comparison modulo nil/empty slices and nil/zero control-flow hints (gob/omitempty cannot represent the difference).", ref="3/C18"),
+ "C11": dict(cat="model_checking", tech="stateless model checking of the real stores under a controlled cooperative scheduler (sync and pebble replaced by yielding shims through a generated overlay), iterative preemption bounding, differential oracle against sequential runs on frozen committed states; separate free-running -race pass",
+   text="All interleavings (up to a preemption bound; unbounded for 1 reader x 1 writer in the thorough tier) of scan calls with writers that flip, delete/re-add, rebuild, reconfigure and mark signatures are executed on the real code; each reader result must equal the same call run alone on a store frozen in a committed state that existed during the call, and the final store must be index-consistent and equal to a serial order of the writer operations. Every trace is an implementation run. The data-race clause is covered by a free-running race-detector pass of the same bodies (sampling, labelled as such).",
+   note="Trusted: Pebble's per-call linearizability and snapshot isolation; scheduling points only at synchronisation and database operations (unsynchronised accesses are the race pass's job).", ref="3/C11"),
 }
 NOT_YET = {}
 ALL = ["C%02d" % i for i in range(1, 21)]
